@@ -15,7 +15,7 @@ impl Property for C04 {
     type Case = History;
 
     fn strategy(_tier: Tier) -> BoxedStrategy<History> {
-        (strat::ring_cfg(3), proptest::collection::vec(strat::step(strat::kind_basic().boxed(), 1, 1), 0..80)).prop_map(|(cfg, steps)| History { cfg, steps }).boxed()
+        (strat::ring_cfg(3), proptest::collection::vec(strat::step(strat::kind_basic().boxed(), 1, 1), 0..80)).prop_map(|(cfg, steps)| History { cfg, steps, teardown: None }).boxed()
     }
 
     fn cases(tier: Tier) -> u32 {
